@@ -124,6 +124,9 @@ func genC11(r *simrt.Rand, tier string, idx int) *hx.Program {
 	}
 	// swarm: each of the newer behaviours is on in a share of the programs
 	p.P["cparts"] = []int64{1, 1, 3}[r.Intn(3)]
+	// the configured number of cursors partitions after the first restart (0: unchanged). The setting is only
+	// used when the cursors stream is created; the stream keeps the partitions it has.
+	p.P["cparts2"] = []int64{0, 0, 1, 2, 3, 5}[r.Intn(6)]
 	p.P["bigoff"] = int64(r.Intn(3) / 2)                 // offsets beyond 32 bits
 	p.P["busdelay"] = []int64{0, 0, 150, 400}[r.Intn(4)] // per mille of the cursors publishes / acks that travel 2-100 ms
 	p.P["busdrop"] = []int64{0, 0, 0, 40}[r.Intn(4)]     // per mille of them that are lost (NATS is at most once)
@@ -576,6 +579,9 @@ func execC11(t *testing.T, prog *hx.Program, dec *simrt.Decider, verbose bool) *
 	oc := runH3(t, prog, dec, verbose, 1, func(h *h3) {
 		h.cfgHook = func(n *simNode, c *Config) {
 			c.CursorsStream.Partitions = nparts
+			if v := int32(prog.Param("cparts2", 0)); v > 0 && restarts > 0 {
+				c.CursorsStream.Partitions = v
+			}
 			c.CursorsStream.AutoPauseTime = time.Duration(prog.Param("autopause_s", 0)) * time.Second
 			c.Streams.SegmentMaxBytes = prog.Param("seg", 1000)
 			c.Streams.CleanerInterval = time.Duration(prog.Param("cleaner_s", 3600)) * time.Second
@@ -810,6 +816,7 @@ func execC11(t *testing.T, prog *hx.Program, dec *simrt.Decider, verbose bool) *
 
 func genC11Cluster(r *simrt.Rand, p *hx.Program, tier string, key func() int64, ctxMode, valMode func() int64) *hx.Program {
 	p.P["cluster"] = 1
+	p.P["nocache"] = int64(r.Intn(2)) // (half of the cluster programs read the log on every fetch)
 	p.P["autopause_s"] = 0
 	p.P["busdrop"] = 0
 	p.P["cleaner_s"] = 3600
@@ -860,7 +867,13 @@ func genC11Cluster(r *simrt.Rand, p *hx.Program, tier string, key func() int64, 
 			c := fmt.Sprintf("c%d", r.Intn(nclients))
 			switch k := r.Intn(100); {
 			case k < 45:
-				p.Ops = append(p.Ops, hx.Op{K: "set", S: c, A: []int64{key(), ctxMode(), valMode(), int64(r.Intn(100))}})
+				ky := key()
+				p.Ops = append(p.Ops, hx.Op{K: "set", S: c, A: []int64{ky, ctxMode(), valMode(), int64(r.Intn(100))}})
+				if r.Intn(100) < 40 {
+					// read your own write: the same client fetches the cursor as soon as its SetCursor has returned
+					// (the acknowledgement is out; is the message readable as committed?)
+					p.Ops = append(p.Ops, hx.Op{K: "get", S: c, A: []int64{ky, 0, 0, int64(r.Intn(100))}})
+				}
 			case k < 90:
 				p.Ops = append(p.Ops, hx.Op{K: "get", S: c, A: []int64{key(), ctxMode(), 0, int64(r.Intn(100))}})
 			default:
